@@ -237,6 +237,15 @@ class Guards:
                         return set()
                     return {LOOKUP_METHODS[meth]}
                 if meth == "decode" or meth == "encode":
+                    # encode with a lenient error handler cannot fail, and what it produced decodes
+                    def lenient(c_):
+                        h_ = c_.args[1] if len(c_.args) > 1 else next((k.value for k in c_.keywords if k.arg == "errors"), None)
+                        return isinstance(h_, ast.Constant) and h_.value in ("replace", "backslashreplace", "ignore", "xmlcharrefreplace", "namereplace")
+                    if meth == "encode" and lenient(call):
+                        return set()
+                    if meth == "decode" and isinstance(call.func, ast.Attribute) and isinstance(call.func.value, ast.Call) and \
+                            isinstance(call.func.value.func, ast.Attribute) and call.func.value.func.attr == "encode" and lenient(call.func.value):
+                        return set()
                     return {"UnicodeError"}
                 if meth in ("sort",):
                     return {"Exception"} if call.keywords else set()
